@@ -115,6 +115,9 @@ type realisation struct {
 	order       []int // permutation of the operations
 	readsBefore bool
 	noise       bool // snapshot + conflicting writes + revert before the real writes
+	// scalarNoise: the reverted transaction also writes nonce and balance of every account of W, first thing in the
+	// block for that account (also of accounts whose real writes are storage only)
+	scalarNoise bool
 	txSplit     int  // Finalise after this many operations (0 = none)
 	reopen      bool // reopen between the base commit and the block
 	cache       int
@@ -202,6 +205,16 @@ func rootFor(base, w *netWrites, r *realisation) (string, error) {
 	}
 	if r.noise {
 		id := l.Snapshot()
+		if r.scalarNoise {
+			seen := map[int]bool{}
+			for _, o := range ops {
+				if !seen[o.a] {
+					seen[o.a] = true
+					l.SetNonce(c13Addrs[o.a], 7777)
+					l.SetBalance(c13Addrs[o.a], big.NewInt(8888))
+				}
+			}
+		}
 		for _, o := range ops {
 			switch o.kind {
 			case "set", "delete":
@@ -308,6 +321,7 @@ func drawRealisation(t *rapid.T, n int, label string) *realisation {
 	r.order = rapid.Permutation(intsUpTo(n)).Draw(t, label+"-perm")
 	r.readsBefore = rapid.Bool().Draw(t, label+"-reads")
 	r.noise = rapid.Bool().Draw(t, label+"-noise")
+	r.scalarNoise = r.noise && rapid.Bool().Draw(t, label+"-scalarNoise")
 	r.junkFirst = rapid.Bool().Draw(t, label+"-junk")
 	r.reopen = rapid.Bool().Draw(t, label+"-reopen")
 	r.cache = rapid.SampledFrom([]int{0, 0, 1, 4}).Draw(t, label+"-cache")
